@@ -376,6 +376,31 @@ func c12(c *hx.Ctx) {
 			}
 		}
 	}
+	// string classes for the context: (encrypt context, decrypt context) pairs.
+	// Decryption must succeed iff the two contexts are equal byte for byte.
+	for i, pr := range stringPairs(c) {
+		e := encSpec{k: i % 3, ctx: pr.a, msg: msgs[2]}
+		c.Class("ctxpair-" + pr.class)
+		if pr.coq {
+			one(e, mutation{kind: "none"}, e.k, pr.b)
+			continue
+		}
+		ct := encrypt(e)
+		if ct == nil {
+			continue
+		}
+		o := decrypt(keys[e.k].priv, pr.b, ct)
+		c.Eval()
+		in := map[string]any{"kind": "ctxpair", "class": pr.class, "enc_ctx": hx.Hex([]byte(pr.a)), "dec_ctx": hx.Hex([]byte(pr.b))}
+		switch {
+		case o.panicked:
+			c.Failf("decrypt-panic", in, "DecryptWithPrivKey panicked: %v", o.err)
+		case pr.a == pr.b && (o.err != nil || !bytes.Equal(o.out, e.msg)):
+			c.Failf("roundtrip-error", in, "round trip under a %d-byte context failed: %v", len(pr.a), o.err)
+		case pr.a != pr.b && o.err == nil:
+			c.Failf("wrong-context-accepted", in, "decryption under a different context (%s) succeeded", pr.class)
+		}
+	}
 	// raw random ciphertexts of every length 0..60
 	for n := 0; n <= 60; n++ {
 		e := encSpec{k: n % 3, ctx: ctxs[n%3], msg: msgs[1]}
